@@ -23,6 +23,8 @@ lower_c = z3.Function('lower_c', I, I)
 islower_c = z3.Function('islower_c', I, B)
 isalnum_c = z3.Function('isalnum_c', I, B)
 enc_len = z3.Function('enc_len', A, I, I)            # utf-8 length
+# number of UTF-8 bytes of the first i code points of a text
+enc_prefix = z3.Function('enc_prefix', A, I, I)
 str_of_int_len = z3.Function('str_of_int_len', I, I)
 
 
@@ -173,11 +175,22 @@ def call_func(ex, st, fi, fv, args, kw, line):
         return
     if finfo is None:
         raise Unsupported('unknown function %s at %d' % (q, line))
-    if '<locals>' in q or ex.contracts.may_inline(q):
+    if '<locals>' in q or ex.contracts.may_inline(q) or _loop_free(finfo):
+        # helpers without a contract are executed from their real body when
+        # they contain no loop (an extract-method refactoring must not turn
+        # a check into "undecided"); recursion is cut by the depth guard
         yield from inline(ex, st, fi, finfo, args, kw, line, fv)
         return
     raise Unsupported('call of %s (no contract, not inlinable) at %s:%d' % (
         q, fi.qual, line))
+
+
+def _loop_free(finfo):
+    for n in ast.walk(finfo.node):
+        if isinstance(n, (ast.While, ast.For, ast.AsyncFor, ast.Yield,
+                          ast.YieldFrom, ast.Try)):
+            return False
+    return True
 
 
 def inline(ex, st, fi, finfo, args, kw, line, fv=None, self_obj=None):
@@ -977,6 +990,28 @@ def str_method(ex, st, fi, o, name, args, kw, line):
             yield st, r
         else:
             raise Unsupported('find pattern at %d' % line)
+    elif name == 'partition':
+        # s.partition(c) for a one-character separator: (head, sep, tail)
+        # split at the least index of c; (s, '', '') when c does not occur
+        t = lift_str(args[0])
+        if not (isinstance(t.ln, int) and t.ln == 1):
+            raise Unsupported('partition separator at %d' % line)
+        c = t.at(0)
+        r = fresh_int('part')
+        n = zint(s.ln)
+        found = And(0 <= r, r < n, s.at(r) == c,
+                    forall(0, r, lambda k: s.at(k) != c))
+        st.assume(Or(found, And(r == -1, forall(0, n,
+                                                lambda k: s.at(k) != c))))
+        cut = z3.If(r >= 0, r, n)
+        head = SSeq(s.arr, cut, 'str')
+        sep = SSeq(sym.lam(lambda k: c), z3.If(r >= 0, 1, 0), 'str')
+        tail = SSeq(sym.lam(lambda k: s.at(cut + 1 + k)),
+                    z3.If(r >= 0, n - r - 1, 0), 'str')
+        for x in (head, sep, tail):
+            if getattr(s, 'tag', None) is not None:
+                x.tag = s.tag
+        yield st, (head, sep, tail)
     elif name == 'startswith':
         start = args[1] if len(args) > 1 else 0
         t = args[0]
@@ -1106,7 +1141,16 @@ def str_method(ex, st, fi, o, name, args, kw, line):
         res = fresh_seq('str', 'replace', st.assume)
         yield st, res
     elif name == 'encode':
-        n = enc_len(s.arr, zint(s.ln))
+        # UTF-8 length: additive over concatenation, 1..4 bytes per code
+        # point.  For a slice base[a:b] it is the difference of the prefix
+        # byte counts of the base text.
+        if getattr(s, 'origin', None) is not None:
+            base, off = s.origin
+            n = enc_prefix(base.arr, zint(off) + zint(s.ln)) - \
+                enc_prefix(base.arr, zint(off))
+        else:
+            n = enc_prefix(s.arr, zint(s.ln)) - enc_prefix(s.arr,
+                                                           z3.IntVal(0))
         st.assume(n >= zint(s.ln))
         st.assume(n <= 4 * zint(s.ln))
         yield st, SSeq(sym.fresh_arr('bytes'), n, 'ilist')
@@ -1266,7 +1310,16 @@ def list_method(ex, st, fi, o, name, args, kw, line):
         else:
             raise Unsupported('pop(%r) at %d' % (args[0], line))
     elif name == 'copy':
-        yield st, TokList(list(o.segs))
+        n = TokList(list(o.segs))
+        # the copy holds the very same elements: reads memoised for the
+        # original (current version) are reads of the copy as well
+        cache = st.ghost.get('$lcache')
+        if cache:
+            ver = len(st.writes_of(o))
+            for k, v in list(cache.items()):
+                if k[0] == o.lid and k[1] == ver:
+                    cache[(n.lid, 0) + tuple(k[2:])] = v
+        yield st, n
     elif name == 'sort':
         hook = ex.contracts.sort_hook
         if hook:
